@@ -57,3 +57,21 @@ func vrtHarness_C11_expiry() {
 	c.Flush()
 	vrtAssert("Flush empties the cache", c.Len() == 0)
 }
+
+// The same with real time passing instead of shifted instants: an entry with a short life is
+// looked up after the clock has moved on - no other operation in between (an idle cache).
+// It is returned iff its expiry has not passed.
+func vrtHarness_C11_expiryClock() {
+	c := New[vrtCKey, int](Opts{Size: 1024, CleanerInterval: time.Hour})
+	defer c.Close()
+	life := time.Duration(100+vrtBelow(101)) * time.Millisecond // 100..200 ms
+	age := time.Duration(vrtBelow(401)) * time.Millisecond      // 0..400 ms
+	vrtAssume(vrtOr(age+50*time.Millisecond <= life, age >= life+50*time.Millisecond))
+	k := vrtCKey(vrtU32() & 0x41)
+	c.Store(k, 7, time.Now().Add(life))
+	vrtClockAdvance(age)
+	v, _, ok := c.Get(k)
+	vrtCover("looked up after its expiry", age > life)
+	vrtCover("looked up before its expiry", age < life)
+	vrtAssert("on an idle cache a lookup returns the value iff the entry has not expired", vrtAnd(ok == (age < life), vrtImplies(ok, v == 7)))
+}
